@@ -720,6 +720,15 @@ pub fn find_scenario_any(name: &str) -> Option<Scenario> {
 
 fn find_scenario(name: &str, tier: Tier) -> Option<Scenario> {
     let mut all = vec![s1(tier), s1p(tier), s2(tier), s3(tier), micro(tier), micro2(tier), s4(tier), micro_fault(tier), s5(tier), micro_ticks(tier)];
+    for base in [micro(Tier::Quick), micro2(Tier::Quick)] {
+        let mut e = base.clone();
+        e.split_menu = SplitMenu::Lines;
+        e.race_budget = 0;
+        let mut l = e.clone();
+        l.name = format!("{}+lazy-server", e.name);
+        l.lazy_server = true;
+        all.push(l);
+    }
     let dropped: Vec<Scenario> = all.iter().cloned().map(with_dropped_events).collect();
     let short: Vec<Scenario> = all.iter().cloned().flat_map(|s| [with_short_writes(s.clone(), 1), with_short_writes(s.clone(), 3), with_short_writes(s, 7)]).collect();
     all.extend(dropped);
@@ -797,6 +806,53 @@ pub fn run_c04(tier: Tier) -> i32 {
     finish(&ctx, cov, viol)
 }
 
+/// Empirical validation of the eager-server reduction (DESIGN.md section 5): every
+/// client-observable trace of a *lazy* server (request lines processed at explicit ServerStep
+/// events, in any interleaving with the other events) must also occur with the eager server.
+pub fn lazy_cross_check(tier: Tier, oracle: &Oracle) -> (Value, Violations) {
+    let far = || Budget { max_executions: u64::MAX, deadline: Instant::now() + Duration::from_secs(3600) };
+    let mut report = Vec::new();
+    let mut viol = Violations::default();
+    for (mut eager, lazy_bound) in [(micro(Tier::Quick), tier.pick(4, 5)), (micro2(Tier::Quick), tier.pick(3, 4))] {
+        eager.split_menu = SplitMenu::Lines;
+        eager.race_budget = 0;
+        let mut lazy = eager.clone();
+        lazy.name = format!("{}+lazy-server", eager.name);
+        lazy.lazy_server = true;
+        let eager_bound = if eager.name.starts_with("micro-1") { 99 } else { lazy_bound + 2 };
+        // changes may also happen before the server has seen the first idle: with the eager server
+        // these are the scenario's initial notifications (every subset of the names)
+        let names = eager.notify_names.clone();
+        let mut e = ExploreStats::default();
+        for mask in 0..(1usize << names.len()) {
+            let init: Vec<&'static str> = names.iter().enumerate().filter(|(i, _)| mask & (1 << i) != 0).map(|(_, n)| *n).collect();
+            if init.len() > eager.notify_budget {
+                continue;
+            }
+            let mut v = eager.clone();
+            v.initial_notifications = init;
+            e = e.merge(explore(&v, eager_bound, oracle, &far()));
+        }
+        let l = explore(&lazy, lazy_bound, oracle, &far());
+        let missing = l.projections.difference(&e.projections).count();
+        report.push(json!({
+            "scenario": eager.name,
+            "eager": {"deviation_bound": eager_bound, "executions": e.executions, "distinct_client_observable_traces": e.projections.len()},
+            "lazy": {"deviation_bound": lazy_bound, "executions": l.executions, "distinct_client_observable_traces": l.projections.len()},
+            "lazy_traces_not_seen_with_eager_server": missing,
+        }));
+        if missing > 0 {
+            for h in l.projections.difference(&e.projections).take(3) {
+                eprintln!("lazy-only trace, e.g. choices {:?}", l.projection_examples.get(h));
+            }
+            machinery_error(&format!("eager-server reduction refuted on {}: {missing} client-observable traces of the lazy server do not occur with the eager server", eager.name));
+        }
+        viol.merge(e.viol);
+        viol.merge(l.viol);
+    }
+    (Value::Array(report), viol)
+}
+
 pub fn run_c05(tier: Tier) -> i32 {
     let mut ctx = Ctx::new("C05", tier, "model_checking");
     ctx.assume("legality is judged by the simulated server at the moment of every write (eager processing; DESIGN.md section 5 argues this loses no client-observable behaviour)");
@@ -821,6 +877,20 @@ pub fn run_c05(tier: Tier) -> i32 {
         "all schedules within the deviation bound; non-trivial = executions containing the noidle/changed race or a checked re-idle window",
         &["noidle_changed_race", "reidle_windows_checked"],
     );
+    let (mut cov, mut viol) = (cov, viol);
+    // legality as judged by a lazily processing server, and validation of the eager reduction
+    let lazy_oracle = |scn: &Scenario, t: &Trace, st: &mut ExploreStats| -> Vec<Violation> {
+        if scn.lazy_server {
+            // only the clauses that do not depend on eager bookkeeping: what the server saw
+            let _ = st;
+            t.server.violations.iter().map(|v| Violation::new("C05/line-during-idle", format!("[lazy server] {v} (choices {:?})", t.choice_names()), Value::Null)).collect()
+        } else {
+            oracle_c05(scn, t, st)
+        }
+    };
+    let (lazy_report, lazy_viol) = lazy_cross_check(tier, &lazy_oracle);
+    cov.set("eager_vs_lazy_server", lazy_report);
+    viol.merge(lazy_viol);
     finish(&ctx, cov, viol)
 }
 
